@@ -2,6 +2,7 @@ SPECIFICATION Spec
 CONSTANTS Family = "unfold"
           MaxEdits = 3
           UnivKinds = {"complete", "leafonly", "noisy"}
+          GtFirst = FALSE
           WithGt = TRUE
 INVARIANT UnfoldIsDenote
 INVARIANT ErrorOnlyWhenDenoted
